@@ -275,6 +275,7 @@ pub fn check_after_failure(c: &AfterFailureCase) -> Check {
 }
 
 pub fn run(ctx: &Ctx, rep: &mut Report) {
+    rep.journal_cases = true;
     rep.trust("independent container encoder: 24-byte header (9+3+4+4+4), records = 4-byte big-endian signed size + |size| bytes");
     rep.trust("libbz2 through the bzip2 crate is used to *produce* compressed bodies; the round-trip oracle is the payload, not the compressor");
     rep.assume("a raw body that begins with 'BZ' is reported compressed by design; only its flag (and totality of decompress) is asserted");
